@@ -348,7 +348,7 @@ class Expander:
             if cand not in taken:
                 return cand
 
-    def build_inline(self, caller_fdef, call, tdef, recv, mode):
+    def build_inline(self, caller_fdef, call, tdef, recv, mode, keep_names=()):
         """-> (stmts, result_expr) ; mode: 'value' (result needed), 'stmt' (result unused), 'tail' (return call)."""
         body = copy.deepcopy(_strip_doc(tdef.body))
         decos = tdef.decorator_list
@@ -397,7 +397,7 @@ class Expander:
                 pre.append(ast.Assign(targets=[ast.Name(id=new, ctx=ast.Store())], value=copy.deepcopy(a), lineno=call.lineno,
                                       col_offset=0))
         for v in sorted(callee_stored - set(cparams)):
-            if v in caller_names:
+            if v in caller_names and v not in keep_names:
                 new = self._fresh(v + '__i', caller_names) if False else self._fresh(v, caller_names)
                 renames[v] = new
                 caller_names.add(new)
@@ -421,6 +421,7 @@ class Expander:
                                                 lineno=call.lineno, col_offset=0)]
                 stmts = stmts + conv
                 res = ast.Name(id=rname, ctx=ast.Load())
+                res._always = always
             else:
                 # result unused: drop the result assignments whose value is a constant / name
                 stmts = stmts + self._drop_result_stores(conv, rname)
@@ -575,7 +576,12 @@ class Expander:
         if not r:
             return None
         tdef, recv, tm, tc = r
-        built = self.build_inline(fdef, call, tdef, recv, mode)
+        keep = ()
+        if mode == 'value' and isinstance(s, ast.Assign) and len(s.targets) == 1 and self._simple_target(s.targets[0]):
+            # names that the statement overwrites anyway need not be kept apart from the helper's locals of the same name
+            keep = {x.id for x in ast.walk(s.targets[0]) if isinstance(x, ast.Name)}
+            keep -= {x.id for a in list(call.args) + [k.value for k in call.keywords] for x in ast.walk(a) if isinstance(x, ast.Name)}
+        built = self.build_inline(fdef, call, tdef, recv, mode, keep)
         if built is None:
             self.stats['skipped'].append('%s.%s -> %s' % (mname, fdef.name, tdef.name))
             return None
@@ -593,8 +599,43 @@ class Expander:
             else:
                 s.test.operand = res
         else:
+            if isinstance(s, ast.Assign) and len(s.targets) == 1 and getattr(res, '_always', False) \
+                    and self._simple_target(s.targets[0]):
+                # `T = helper(...)`: store each returned value straight into T (gives back the code as it was before
+                # the helper was extracted: `sign, value = -1, value[1:]`)
+                self._retarget(stmts, res.id, s.targets[0])
+                return self._drop_self_assign(stmts) or [ast.copy_location(ast.Pass(), s)]
             s.value = res
         return stmts + [s]
+
+    def _drop_self_assign(self, stmts):
+        out = []
+        for s in stmts:
+            if isinstance(s, ast.Assign) and len(s.targets) == 1 and \
+                    ast.dump(s.targets[0]).replace('Store()', 'Load()') == ast.dump(s.value):
+                continue
+            if isinstance(s, ast.If):
+                s.body = self._drop_self_assign(s.body) or [ast.copy_location(ast.Pass(), s)]
+                s.orelse = self._drop_self_assign(s.orelse)
+            out.append(s)
+        return out
+
+    def _simple_target(self, t):
+        if isinstance(t, ast.Name):
+            return True
+        if isinstance(t, ast.Attribute):
+            return self._pure_chain(t)
+        if isinstance(t, ast.Tuple):
+            return all(isinstance(e, ast.Name) for e in t.elts)
+        return False
+
+    def _retarget(self, stmts, rname, target):
+        for s in stmts:
+            if isinstance(s, ast.Assign) and isinstance(s.targets[0], ast.Name) and s.targets[0].id == rname:
+                s.targets = [copy.deepcopy(target)]
+            elif isinstance(s, ast.If):
+                self._retarget(s.body, rname, target)
+                self._retarget(s.orelse, rname, target)
 
     def _inline_expr_helpers(self, mname, cname, fdef, s):
         """replace calls of helpers whose body is a single `return <expr>` by that expression, anywhere in the
